@@ -32,6 +32,7 @@ type Frame struct {
 	defers []deferred
 	visits map[int]int
 	// where the result goes in the caller
+	guarded map[ssa.Value]string // addresses of guarded fields -> mutex key
 	retTo   ssa.Value // nil: discard
 	inDefer bool      // this frame runs a deferred call: on return the caller re-executes RunDefers
 	marker  bool      // nested-run boundary
@@ -73,6 +74,8 @@ type State struct {
 	heldNames map[string]string
 	objNames map[int]string
 	choicePos int
+	guardOf map[int]string // object -> mutex key that guards it (lockset)
+	allocFn map[int]*ssa.Function
 	stubCalls int
 	imprecise bool
 	unwind  int
@@ -120,6 +123,7 @@ type Exec struct {
 	regionOK  map[*ssa.If]bool
 	pure      int
 	crossDone int
+	inMerged  int
 }
 
 func (e *Exec) abort(format string, a ...interface{}) abortSignal {
@@ -157,6 +161,18 @@ func (st *State) clone() *State {
 		n.heldNames[k] = v
 	}
 	n.objNames = st.objNames
+	if st.allocFn != nil {
+		n.allocFn = make(map[int]*ssa.Function, len(st.allocFn))
+		for k, v := range st.allocFn {
+			n.allocFn[k] = v
+		}
+	}
+	if st.guardOf != nil {
+		n.guardOf = make(map[int]string, len(st.guardOf))
+		for k, v := range st.guardOf {
+			n.guardOf[k] = v
+		}
+	}
 	n.choicePos = st.choicePos
 	n.stubCalls = st.stubCalls
 	n.inited = make(map[*ssa.Package]bool, len(st.inited))
@@ -171,6 +187,12 @@ func (st *State) clone() *State {
 			nf.env[k] = v
 		}
 		nf.defers = append([]deferred(nil), f.defers...)
+		if f.guarded != nil {
+			nf.guarded = make(map[ssa.Value]string, len(f.guarded))
+			for k, v := range f.guarded {
+				nf.guarded[k] = v
+			}
+		}
 		nf.visits = make(map[int]int, len(f.visits))
 		for k, v := range f.visits {
 			nf.visits[k] = v
@@ -541,9 +563,22 @@ func (e *Exec) run(init *State) {
 }
 
 func (e *Exec) runState(st *State) {
+	if e.runTo(st, 0, &e.work) {
+		e.res.Paths++
+		if st.imprecise {
+			e.res.ImprecisePaths++
+		}
+	}
+}
+
+// runTo steps st until its stack has shrunk to stopDepth frames; forks go to
+// *work.  Returns true if st itself got there (false: it forked, died or the
+// run was aborted).
+func (e *Exec) runTo(st *State, stopDepth int, work *[]*State) (finished bool) {
 	e.curState = st
 	defer func() {
 		if r := recover(); r != nil {
+			finished = false
 			switch s := r.(type) {
 			case forkSignal:
 				a := st
@@ -553,7 +588,7 @@ func (e *Exec) runState(st *State) {
 				b.pc = append(b.pc, e.c.Not(s.cond))
 				b.decided.m[s.cond.id] = 0
 				e.res.Forks++
-				e.work = append(e.work, b, a)
+				*work = append(*work, b, a)
 			case forkValuesSignal:
 				e.res.Forks += len(s.vals) - 1
 				for i := len(s.vals) - 1; i >= 0; i-- {
@@ -565,11 +600,11 @@ func (e *Exec) runState(st *State) {
 					}
 					n.pc = append(n.pc, e.c.Eq(s.t, e.c.Const(s.t.sort.w, s.vals[i])))
 					n.decided.m[s.t.id] = s.vals[i]
-					e.work = append(e.work, n)
+					*work = append(*work, n)
 				}
 			case choiceSignal:
 				// distribute or fork locally
-				if e.spawn != nil && len(st.choices) < e.splitDepth() && st.depth == 0 {
+				if e.spawn != nil && len(st.choices) < e.splitDepth() && st.depth == 0 && stopDepth == 0 {
 					for k := 0; k < s.n; k++ {
 						e.spawn(append(append([]int(nil), st.choices...), k))
 					}
@@ -584,7 +619,7 @@ func (e *Exec) runState(st *State) {
 						n = st.clone()
 					}
 					n.choices = append(n.choices, k)
-					e.work = append(e.work, n)
+					*work = append(*work, n)
 				}
 			case deadSignal:
 				e.res.Dead++
@@ -596,13 +631,10 @@ func (e *Exec) runState(st *State) {
 			}
 		}
 	}()
-	for len(st.frames) > 0 {
+	for len(st.frames) > stopDepth {
 		e.step(st)
 	}
-	e.res.Paths++
-	if st.imprecise {
-		e.res.ImprecisePaths++
-	}
+	return true
 }
 
 func (e *Exec) step(st *State) {
@@ -689,6 +721,12 @@ func (e *Exec) exec(st *State, f *Frame, in ssa.Instruction) {
 		f.ip++
 	case *ssa.Alloc:
 		p := e.alloc(st, e.zero(x.Type().(*types.Pointer).Elem()))
+		if len(e.ob.guards) > 0 && x.Heap {
+			if st.allocFn == nil {
+				st.allocFn = map[int]*ssa.Function{}
+			}
+			st.allocFn[p.obj] = f.fn
+		}
 		e.setv(f, x, p)
 		f.ip++
 	case *ssa.BinOp:
@@ -781,11 +819,19 @@ func (e *Exec) exec(st *State, f *Frame, in ssa.Instruction) {
 		e.call(st, f, x, &x.Call)
 	case *ssa.Store:
 		p := e.ptr(st, x.Addr, "store")
-		e.store(st, p, e.val(st, x.Val))
+		val := e.val(st, x.Val)
+		if len(e.ob.guards) > 0 {
+			e.locksetAccess(st, f, x.Addr, p, val, true)
+		}
+		e.store(st, p, val)
 		f.ip++
 	case *ssa.FieldAddr:
 		p := e.ptr(st, x.X, "field access")
-		e.setv(f, x, p.extend(Sel{k: x.Field}))
+		np := p.extend(Sel{k: x.Field})
+		if len(e.ob.guards) > 0 {
+			e.locksetFieldAddr(st, f, x, p)
+		}
+		e.setv(f, x, np)
 		f.ip++
 	case *ssa.Field:
 		sv := e.val(st, x.X).(*StructV)
